@@ -186,6 +186,10 @@ func (sd *side) chains(i int) [][]r3.Vector {
 func (sd *side) containing(p s2.Point) []int32 {
 	var out []int32
 	for i, sc := range sd.spec.Shapes {
+		if sc.full() {
+			out = append(out, int32(i))
+			continue
+		}
 		if !sc.dim2() || sc.numEdges() == 0 {
 			continue
 		}
@@ -304,13 +308,17 @@ func (tg *tgt) reps(furthest bool) []s2.Point {
 	case "cell":
 		ps = []s2.Point{tg.cell.Center()}
 	default:
-		for _, sh := range tg.bs.shapes {
+		for i, sh := range tg.bs.shapes {
 			for c := 0; c < sh.NumChains(); c++ {
 				ch := sh.Chain(c)
 				if ch.Length == 0 {
 					continue
 				}
 				ps = append(ps, sh.Edge(ch.Start).V0)
+			}
+			if tg.bs.spec.Shapes[i].full() {
+				// a region without edges is represented by its reference point
+				ps = append(ps, s2.OriginPoint())
 			}
 		}
 	}
